@@ -143,6 +143,23 @@ def special_circuits():
         yield c, ('special', f'fork-chain-{depth}')
 
 
+def wide_circuit(n=150, depth=2):
+    """n parallel chains (input -> BUF1 -> INV1 ...): very wide levels with single-use operands"""
+    c = Circuit(f'wide{n}x{depth}')
+    for i in range(n):
+        a = Node(c, f'i{i}', 'input')
+        c.io_nodes.append(a)
+        prev = a
+        for d in range(depth):
+            g = Node(c, f'g{i}_{d}', 'INV1' if d % 2 else 'BUF1')
+            Line(c, prev, g)
+            prev = g
+        o = Node(c, f'o{i}', 'output')
+        c.io_nodes.append(o)
+        Line(c, prev, o)
+    return c
+
+
 def random_circuit(rng, n_gates=8, n_in=3, n_ff=1, n_latch=0, p_unconn=0.1, p_direct=0.3, p_dangling=0.1, kinds=None,
                    p_arity_gap=0.0, p_chain=0.25):
     """p_arity_gap: probability that the *trailing* pin(s) of a gate whose kind carries a digit are left unconnected
